@@ -151,7 +151,9 @@ func (d *DNS) isImmediate(q dns.Question) bool {
 	qname := strings.ToLower(q.Name)
 	query := strings.Split(qname, ".")
 	self := strings.Split(d.domain, ".")
-	return strings.HasSuffix(qname, d.domain) &&
+	// the zone has to match on a label boundary: "fooacme.example.com." is not a name
+	// inside "acme.example.com."
+	return (qname == d.domain || strings.HasSuffix(qname, "."+d.domain)) &&
 		len(query) >= len(self) &&
 		len(query)-len(self) <= 1
 }
@@ -197,11 +199,14 @@ func (d *DNS) answerTXT(q dns.Question) ([]dns.RR, error) {
 	var ra []dns.RR
 
 	qname := strings.ToLower(q.Name)
-	idx := strings.Index(qname, d.domain)
-	if idx <= 0 {
+	// the label in front of the zone, cut at the label boundary
+	if !strings.HasSuffix(qname, "."+d.domain) {
 		return ra, nil
 	}
-	subdomain := qname[0 : idx-1]
+	subdomain := strings.TrimSuffix(qname, "."+d.domain)
+	if subdomain == "" {
+		return ra, nil
+	}
 
 	callCtx, cancel := context.WithTimeout(d.parentCtx, timing.DNSLookupTimeout)
 	defer cancel()
